@@ -131,15 +131,23 @@ pub async fn serve(
             break;
         }
 
-        // Compact spawn frames
-        if frame.topic.ends_with(".spawn") || frame.topic.ends_with(".spawn.error") {
-            if let Some(topic) = frame
-                .topic
-                .strip_suffix(".spawn.error")
-                .or_else(|| frame.topic.strip_suffix(".spawn"))
-            {
-                compacted_frames.insert((frame.context_id, topic.to_string()), frame);
+        // Compact spawn frames: the latest spawn of a (context, name) is retained, unless it is
+        // the one a later .spawn.error refuses (an error about an older spawn changes nothing)
+        if let Some(topic) = frame.topic.strip_suffix(".spawn.error") {
+            let key = (frame.context_id, topic.to_string());
+            let refused = frame
+                .meta
+                .as_ref()
+                .and_then(|meta| meta.get("source_id"))
+                .and_then(|v| v.as_str())
+                .map(|s| s.to_string());
+            if let Some(retained) = compacted_frames.get(&key) {
+                if refused == Some(retained.id.to_string()) {
+                    compacted_frames.remove(&key);
+                }
             }
+        } else if let Some(topic) = frame.topic.strip_suffix(".spawn") {
+            compacted_frames.insert((frame.context_id, topic.to_string()), frame);
         }
     }
 
